@@ -59,6 +59,7 @@ class Rig:
         self.loop.run_until(None, t.done)
         t.result()
         self.entered = True
+        self.pump = next((x for x in self.man._tasks if x.get_name() == "SPAMAN:Sequence Pump"), None)
 
     def run_until_state(self, state, timeout):
         return self.loop.run_for(timeout, lambda: self.man.spa_state == state)
